@@ -26,8 +26,11 @@ def rec_canon(r):
     return ("a", (("i", sec), ("i", usec), ("i", cap), ("i", wire), ("a", tuple(("b", x) for x in data))))
 
 
-def gen_records(rng, big=False):
+def gen_records(rng, big=False, many=False):
     n = rng.choice([0, 1, 2, 3, 5, 8, 13, 50 if rng.random() < 0.1 else 4])
+    if many:
+        # enough small records for record headers to straddle the 8 KiB read-buffer boundaries several times
+        n = rng.choice([150, 300, 700])
     recs = []
     for k in range(n):
         sz = rng.choice([0, 1, 14, 60, 64, 70, rng.randint(0, 70)])
@@ -105,7 +108,7 @@ def run(chk):
         reread = []
         n_files = 400 if quick else 12000
         for i in range(n_files):
-            recs = gen_records(rng, big=(i % 7 == 0))
+            recs = gen_records(rng, big=(i % 7 == 0), many=(i % 40 == 3))
             maxcap = max([len(r[2]) for r in recs] + [0])
             snap = rng.choice([maxcap, max(maxcap, 64), max(maxcap, 65535), (1 << 32) - 1])
             hdr = dict(magic=rng.choice([pkt.MAGIC_US, pkt.MAGIC_NS]), major=rng.choice([2, 2, rng.getrandbits(16)]), minor=rng.choice([4, 4, rng.getrandbits(16)]),
@@ -301,6 +304,40 @@ def run(chk):
                     "    let i = 0; while i < len(a) { puts(a[i].sec, \" \", a[i].caplen, \" \", a[i].wirelen, \" \", len(a[i].payload)); i = i + 1; }\n    puts(\"N \", len(a));\n  }\n}\n")
         with open(script_flt, "w") as f:
             f.write("@ true\n")
+        # ---- complete streams copied from stdin to stdout (pcap_write on pcap_stream(stdout), and filter mode): records larger
+        # than the stdout buffer that contain line-feed bytes at odd places, and many small records
+        script_copy = os.path.join(work, "sc.p2")
+        with open(script_copy, "w") as f:
+            f.write("let s = pcap_stream(stdin); let o = pcap_stream(stdout);\nloop { let p = pcap_read_next(s); if p == null || is_error(p) { break; } let r = pcap_write(o, p); "
+                    "if is_error(r) { eprintln(\"WRITE-ERROR\"); break; } }\n")
+        for i in range(6 if quick else 120):
+            recs = []
+            if i % 3 == 2:
+                recs = gen_records(rng, many=True)
+            else:
+                for k in range(rng.randint(1, 6)):
+                    sz = rng.choice([60, 1100, 1200, 1500, 3000, 9000])
+                    body = bytearray(bytes((j * 7 + k) % 251 + 1 if ((j * 7 + k) % 251 + 1) != 10 else 11 for j in range(sz)))
+                    for _ in range(rng.randint(0, 2)):
+                        body[rng.choice([0, 5, 20, sz // 2, max(0, sz - 1030), sz - 1])] = 10
+                    recs.append((k + 1 if rng.random() < 0.8 else 0x0A0A0A0A, 10 if rng.random() < 0.3 else k, bytes(body), None, None))
+            data = pkt.pcap_file(recs, snaplen=65535)
+            want = [(r_[0], r_[1], len(r_[2]), r_[4] if r_[4] is not None else len(r_[2]), r_[2]) for r_ in recs]
+            for mode, argv in (("copy", [script_copy]), ("filter", [script_flt])):
+                rr = core.run_binary(argv, stdin_data=data, release=(i % 2 == 1), timeout=60)
+                if rr["timeout"]:
+                    chk.inconc("timeout (stream copy)")
+                    continue
+                chk.observed(("stream-copy", mode, min(len(recs), 8), any(len(r_[2]) > 1024 for r_ in recs)))
+                if core.crashed(rr):
+                    chk.violation("stream-crash|%s" % mode, "copying a pcap stream crashes the interpreter: %s" % rr["err"][-200:], {"n_records": len(recs)})
+                    continue
+                h2, recs2, rest = pkt.parse_pcap(rr["out"])
+                if h2 is None or recs2 != want or rest:
+                    k_ = next((j for j in range(min(len(recs2), len(want))) if recs2[j] != want[j]), min(len(recs2), len(want)))
+                    chk.violation("stream-copy|%s|%s" % (mode, "large-records" if any(len(r_[2]) > 1024 for r_ in recs) else "small-records"),
+                                  "a %d-record stream copied from stdin to stdout (%s) comes out with %d records and %d stray bytes; first difference at record %d (stderr %r)" % (
+                                      len(recs), mode, len(recs2), len(rest), k_, rr["err"][-100:]), {"n_records": len(recs), "sizes": [len(r_[2]) for r_ in recs][:20]})
         for i in range(2 if quick else 40):
             recs = gen_records(rng)[:4]
             if not recs:
